@@ -46,3 +46,17 @@ package linker
 //@   site own-node: store SLocal.Decls requires fresh(target)
 //@   loop 0 invariant 1 <= end && end <= len(stmts) && end <= rangeindex + 2
 //@   loop 0 invariant didMergeWithPreviousLocal ==> is(stmts[end-1].Data, *js_ast.SLocal) && fresh(stmts[end-1].Data.(*js_ast.SLocal))
+
+// ----------------------------------------------------------------------------------------------
+// C18: "two files emitted under the same path have identical bytes": the content hash must cover every
+// field the final bytes of a chunk depend on.
+//  - generateIsolatedHash: the bytes between placeholders (outputPiece.data), the part ranges, the output
+//    path template, the public path and the linked legal comments reach the digest, length-prefixed where
+//    boundaries matter; and WHICH chunk or asset each placeholder stands for (outputPiece.kind / .index).
+//  - appendIsolatedHashesForImportedChunks: every cross-chunk import (static or dynamic) is visited
+//    unconditionally, the asset path mixed into the hash is the path relative to the output directory (the
+//    text that ends up in the file), and the chunk's own isolated hash is always mixed in.
+//@ hashed isolated-hash C18: func=(*linkerContext).generateIsolatedHash ; in=linker ; sink=hashWriteLengthPrefixed:1,hashWriteUint32:1,Write:0 ; scenario=hash_placeholder_targets ; must=outputPiece.data>hashWriteLengthPrefixed,partRange.partIndexBegin,partRange.partIndexEnd,partRange.sourceIndex,PathTemplate.Data>hashWriteLengthPrefixed,Options.PublicPath>hashWriteLengthPrefixed,outputPiece.kind,outputPiece.index
+//@ hashed legal-comments C18: func=(*linkerContext).generateIsolatedHash ; in=linker ; sink=hashWriteLengthPrefixed:1,hashWriteUint32:1,Write:0 ; scenario=legal_comments_hash ; must=chunkInfo.externalLegalComments>hashWriteLengthPrefixed
+//@ unguarded visit-every-import C18: func=(*linkerContext).appendIsolatedHashesForImportedChunks ; in=linker ; site=call appendIsolatedHashesForImportedChunks ; allow=false:visited[chunkIndex]==visitedKey ; argpath=2:c.chunks[chunkIndex].crossChunkImports[*].chunkIndex
+//@ flow asset-path-is-relative C18: func=(*linkerContext).appendIsolatedHashesForImportedChunks ; in=linker ; site=call hashWriteLengthPrefixed ; argpath=1:call ReplaceAll(call Rel(c.fs,c.options.AbsOutputDir,*.InputFile.AdditionalFiles[*].AbsPath)#0,*
